@@ -81,6 +81,9 @@ def run_case(case, g, tier, res):
             r2 = b.is_compatible(a)
             f = rule_formula(ia, ib)
             c.prove(f == r1 if not isinstance(f, bool) else f == r1, "compat==rule", _cex_pair(ia, ib, r1, "differs from the conjugation rule"))
+            # the same object on both sides is a pair like any other ($ bonds with $: head-to-head addition of two copies)
+            r0 = a.is_compatible(a)
+            c.prove(rule_formula(ia, ia) == r0, "compat==rule", _cex_pair(ia, ia, r0, "of a descriptor with ITSELF (one object on both sides) differs from the conjugation rule"))
             c.prove(r1 == r2, "symmetric", _cex_pair(ia, ib, r1, "is not symmetric"))
             used = common.vars_in_path_condition(c)
             wvars = [n for n in used if n.split("!")[0].endswith("_w") or n.split("!")[0][-3:-1] == "_t"]
@@ -294,6 +297,8 @@ def replay(rp, gb):
         (pa, ta), (pb, tb) = rp["a"], rp["b"]
         a = gb.BondDescriptor(ta, 0, pa, 0)
         b = gb.BondDescriptor(tb, 0, pb, 0)
+        if (pa, ta) == (pb, tb) and bool(a.is_compatible(a)) != _rule(_parse_ref(pa, ta), _parse_ref(pa, ta)):
+            return True, f"{pa}{ta}.is_compatible(itself) = {a.is_compatible(a)}, rule = {_rule(_parse_ref(pa, ta), _parse_ref(pa, ta))}"
         ra, rb = _parse_ref(pa, ta), _parse_ref(pb, tb)
         exp = _rule(ra, rb)
         r1, r2 = a.is_compatible(b), b.is_compatible(a)
